@@ -103,6 +103,8 @@ def _entries(cname):
         "verify_string": ver(U.sigdecode_string),
         "verify_der": ver(U.sigdecode_der),
         "ecdh_pub_bytes": ecdh("load_received_public_key_bytes", True),
+        "ecdh_pub_bytes_nocurve": ecdh("load_received_public_key_bytes", False),
+        "ecdh_priv_bytes_nocurve": ecdh("load_private_key_bytes", False),
         "ecdh_pub_der": ecdh("load_received_public_key_der", False),
         "ecdh_pub_pem": ecdh("load_received_public_key_pem", False),
         "ecdh_priv_bytes": ecdh("load_private_key_bytes", True),
@@ -319,7 +321,7 @@ def jobs(tier, seed):
     return js
 
 
-_ENTRY_NAMES = ["vk_from_string", "vk_from_der", "vk_from_pem", "sk_from_string", "sk_from_der",
+_ENTRY_NAMES = ["ecdh_pub_bytes_nocurve", "ecdh_priv_bytes_nocurve", "vk_from_string", "vk_from_der", "vk_from_pem", "sk_from_string", "sk_from_der",
                 "sk_from_pem", "sigdecode_string", "sigdecode_der", "verify_string", "verify_der",
                 "ecdh_pub_bytes", "ecdh_pub_der", "ecdh_pub_pem", "ecdh_priv_bytes",
                 "ecdh_priv_der", "ecdh_priv_pem"]
@@ -355,6 +357,8 @@ def replay_entry(inp):
         "verify_string": lambda d: vk.verify_digest(d, b"\x01" * cv.baselen, sigdecode=U.sigdecode_string),
         "verify_der": lambda d: vk.verify_digest(d, b"\x01" * cv.baselen, sigdecode=U.sigdecode_der),
         "ecdh_pub_bytes": lambda d: E.ECDH(curve=cv).load_received_public_key_bytes(d),
+        "ecdh_pub_bytes_nocurve": lambda d: E.ECDH().load_received_public_key_bytes(d),
+        "ecdh_priv_bytes_nocurve": lambda d: E.ECDH().load_private_key_bytes(d),
         "ecdh_pub_der": lambda d: E.ECDH().load_received_public_key_der(d),
         "ecdh_pub_pem": lambda d: E.ECDH().load_received_public_key_pem(d),
         "ecdh_priv_bytes": lambda d: E.ECDH(curve=cv).load_private_key_bytes(d),
